@@ -24,19 +24,49 @@ def slotsOf (g : G Label Hex) : List (Rd.Slot Label (List UInt8)) :=
 /-- the document of `to_xml` and `to_dot`: present vertices ascending, edges sorted by label, data if any -/
 def exportDoc (g : G Label Hex) : List (Rd.VNode Label (List UInt8)) := Rd.doc LO.lt (slotsOf g)
 
-def xmlNode (n : Rd.VNode Label (List UInt8)) : String :=
-  if n.edges.isEmpty ∧ n.data.isNone then s!"\t<v id=\"{n.id}\" />\n"
-  else
-    s!"\t<v id=\"{n.id}\">\n" ++
-    String.join (n.edges.map (fun e => s!"\t\t<e a=\"{labelText e.1}\" to=\"{e.2}\" />\n")) ++
-    (match n.data with
-     | some bs => "\t\t<data>" ++ (hexText bs).map (fun c => if c = '-' then ' ' else c) ++ "</data>\n"
-     | none => "") ++
-    "\t</v>\n"
+/-! #### `to_xml`, character by character (so that `Algo/RenderText.lean` can read the text back) -/
 
-def renderXml (doc : List (Rd.VNode Label (List UInt8))) : String :=
-  "<?xml version=\"1.1\" encoding=\"UTF-8\"?>\n" ++
-    (if doc.isEmpty then "<sodg />\n" else "<sodg>\n" ++ String.join (doc.map xmlNode) ++ "</sodg>\n")
+def xHeader : List Char := ['<', '?', 'x', 'm', 'l', ' ', 'v', 'e', 'r', 's', 'i', 'o', 'n', '=', '"', '1', '.', '1', '"', ' ', 'e', 'n', 'c', 'o', 'd', 'i', 'n', 'g', '=', '"', 'U', 'T', 'F', '-', '8', '"', '?', '>']
+def xVOpen : List Char := ['\t', '<', 'v', ' ', 'i', 'd', '=', '"']
+def xSelf : List Char := ['"', ' ', '/', '>']
+def xOpen : List Char := ['"', '>']
+def xEdge : List Char := ['\t', '\t', '<', 'e', ' ', 'a', '=', '"']
+def xTo : List Char := ['"', ' ', 't', 'o', '=', '"']
+def xData : List Char := ['\t', '\t', '<', 'd', 'a', 't', 'a', '>']
+def xDataEnd : List Char := ['<', '/', 'd', 'a', 't', 'a', '>']
+def xClose : List Char := ['\t', '<', '/', 'v', '>']
+def xRootEmpty : List Char := ['<', 's', 'o', 'd', 'g', ' ', '/', '>']
+def xRoot : List Char := ['<', 's', 'o', 'd', 'g', '>']
+def xRootEnd : List Char := ['<', '/', 's', 'o', 'd', 'g', '>']
+
+/-- decimal digits of a number (`Nat.repr`, as characters) -/
+def nat10 (n : Nat) : List Char := Nat.toDigits 10 n
+
+def dashToSpace (c : Char) : Char := if c = '-' then ' ' else c
+
+def xEdgeLine (e : Label × Nat) : List Char := xEdge ++ Lb.print e.1 ++ xTo ++ nat10 e.2 ++ xSelf
+def xDataLine (bs : List UInt8) : List Char := xData ++ (HD.print bs).map dashToSpace ++ xDataEnd
+
+/-- the lines of one `<v>` element -/
+def xmlNodeLines (n : Rd.VNode Label (List UInt8)) : List (List Char) :=
+  if n.edges.isEmpty ∧ n.data.isNone then [xVOpen ++ nat10 n.id ++ xSelf]
+  else
+    [xVOpen ++ nat10 n.id ++ xOpen] ++ n.edges.map xEdgeLine ++
+    (match n.data with
+     | some bs => [xDataLine bs]
+     | none => []) ++
+    [xClose]
+
+/-- the lines of the document -/
+def xmlLines (doc : List (Rd.VNode Label (List UInt8))) : List (List Char) :=
+  xHeader :: (if doc.isEmpty then [xRootEmpty] else [xRoot] ++ doc.flatMap xmlNodeLines ++ [xRootEnd])
+
+/-- every line is followed by a newline -/
+def unlines (ls : List (List Char)) : List Char := ls.flatMap (· ++ ['\n'])
+
+def xmlChars (doc : List (Rd.VNode Label (List UInt8))) : List Char := unlines (xmlLines doc)
+
+def renderXml (doc : List (Rd.VNode Label (List UInt8))) : String := String.ofList (xmlChars doc)
 
 def toXml (g : G Label Hex) : String := renderXml (exportDoc g)
 
